@@ -426,7 +426,22 @@ def r5(run, ctx):
             r1_ = cfg.reach(start, avoid=k_in + [h], include_src=True)
             r2_ = cfg.reach(start, avoid=r_in + [h], include_src=True)
             ok = not any(n.id in r1_ for n in r_in) and not any(n.id in r2_ for n in s_in)
-            r3_ = cfg.reach(start, avoid=s_in, include_src=True)
+            # a worker whose kill_process result is false (another kill of it is in
+            # flight, or it is gone) is left to that kill / the periodic check: the
+            # replacement is owed for every worker this reload did terminate
+            from rules.c04 import _kill_result_names
+            from sa.idioms import infeasible_edges
+            knames = _kill_result_names(ctx, f)
+
+            def kill_ok(e):
+                base = e
+                while isinstance(base, ast.Subscript):
+                    base = base.value
+                if isinstance(base, ast.Name) and base.id in knames:
+                    return True
+                return None
+            r3_ = cfg.reach(start, avoid=s_in, include_src=True,
+                            edges_excluded=infeasible_edges(cfg, kill_ok))
             ok = ok and h.id not in r3_
         run.check('R5', ok, 'sequential reload: per worker kill (awaited) -> reap -> spawn', f,
                   h.ast.iter, 'sequential reload does not replace each worker by kill, '
